@@ -50,6 +50,16 @@ void harness (void)
   _dbus_string_init_const_len (&body, (const char *) buf, N + TAIL);
   v = _dbus_validate_body_with_reason (&sig, 0, order, NULL, &body, 0, len);
   want = ref_body_valid (&ref, (const unsigned char *) SIG, sizeof (SIG) - 1, buf, len, order);
+#if TAIL > 0
+  /* C11.L3: the verdict on [0,len) does not depend on the bytes that follow in the same buffer (the next message's bytes) */
+  {
+    unsigned char buf2[N + TAIL + 8] __attribute__ ((aligned (8))); DBusString body2; DBusValidity v2; int k;
+    for (k = 0; k < N + TAIL; k++) { buf2[k] = vf_u8 (); if (k < len) VF_ASSUME (buf2[k] == buf[k]); }
+    _dbus_string_init_const_len (&body2, (const char *) buf2, N + TAIL);
+    v2 = _dbus_validate_body_with_reason (&sig, 0, order, NULL, &body2, 0, len);
+    VF_ASSERT (v2 == v, "validation of a frame is independent of the bytes that follow it");
+  }
+#endif
   VF_ASSERT (v != DBUS_VALIDITY_UNKNOWN_OOM_ERROR, "no OOM verdict when allocation succeeds");
   VF_ASSERT ((v == DBUS_VALID) == (want != 0), "body accepted exactly when it is well-formed under the specification");
   if (v == DBUS_VALID) VF_WITNESS ("some body is accepted");
